@@ -417,7 +417,8 @@ class NDNApp:
         .. note::
             Currently, python-ndn does not handle PIT Tokens.
         """
-        name = Name.normalize(name)
+        # The name is kept for every later connection: do not keep views of buffers the caller may reuse after this call
+        name = [bytes(comp) for comp in Name.normalize(name)]
 
         def decorator(func: Route):
             self._autoreg_routes.append((name, func, validator, need_raw_packet, need_sig_ptrs))
